@@ -89,7 +89,10 @@ class Env:
         return _trap()
 
     def mk(self, i):
-        cls = AM if self.r.is_async[i] else M
+        if i % 4 == 2:
+            cls = AM2 if self.r.is_async[i] else M2      # aliased enter/exit methods
+        else:
+            cls = AM if self.r.is_async[i] else M
         m = cls(self, i, self.r.shape[i])
         self.by_id[id(m)] = i
         self.keep.append(m)
@@ -174,6 +177,30 @@ class AM:
             await self.env.trap()
         self.env.expect("exited", self.i)
         return self.i % 3 == 0
+
+
+class M2(M):
+    """same behaviour, but __enter__/__exit__ are aliases of differently named functions"""
+
+    def _come(self):
+        return M.__enter__(self)
+
+    def _leave(self, *exc):
+        return M.__exit__(self, *exc)
+
+    __enter__ = _come
+    __exit__ = _leave
+
+
+class AM2(AM):
+    async def _acome(self):
+        return await AM.__aenter__(self)
+
+    async def _aleave(self, *exc):
+        return await AM.__aexit__(self, *exc)
+
+    __aenter__ = _acome
+    __aexit__ = _aleave
 
 
 # ------------------------------------------------------------------ comparison
